@@ -339,6 +339,69 @@ class NumberApplyModifiers(NumberApply):
     return dict(self=self._mk(m), value=v)
 
 
+@register
+class NumberSetDefault(_NumberBase):
+  """set_default (also the first half of freeze): a default that the spec does
+  not accept is refused and NOT stored; a stored default is one the spec accepts
+  ("a spec's own default is acceptable to it")."""
+  target = f'{M}:ValueSpecBase.set_default'
+  name = 'Number.set_default'
+  variants = ('int',)
+  raises = {ValueError: ('default_unchanged',), TypeError: ('default_unchanged',)}
+  inline = COMMON_INLINE + (f'{M}:ValueSpecBase.apply',)
+
+  def inputs(self, b):
+    s = self.number(b, 'self')
+    s.fields['_default'] = b.choice('old_default_kind', [MV, b.num('old_default', self.variant)])
+    d = b.choice('d_kind', [None, b.num('d', self.variant)])
+    return dict(self=s, default=d, use_default_apply=True, root_path=None), {}
+
+  def setup_policy(self, policy):
+    _common_policy(policy)
+
+  def requires(self, self_):
+    return wf_num(self_) and (MV == self_._default or acc_num(self_._min_value, self_._max_value, self_._default))
+
+  def old(self, self_):
+    return dict(default=self_._default)
+
+  def ensures_stored_default_is_accepted(self, self_, default, result):
+    d = self_._default
+    return result is self_ and acc_modifiers(
+        self_._is_noneable, d is None, d is not None and acc_num(self_._min_value, self_._max_value, d))
+
+  def raises_default_unchanged(self, self_, old):
+    return self_._default is old['default']
+
+  def native(self, m):
+    s = self.mk(m, 'self')
+    if m.choices.get('old_default_kind', 0) == 1:
+      try:
+        s.set_default(m['old_default'])
+      except (ValueError, TypeError):
+        return None
+    d = None if m.choices.get('d_kind', 0) == 0 else m['d']
+    return s.set_default, [d], {}
+
+  def replay(self, obligation, m):
+    s = pg.typing.Int(min_value=0, max_value=3, default=1)
+    try:
+      s.set_default(9)
+      raised = False
+    except (ValueError, TypeError):
+      raised = True
+    bad = raised and s.default != 1
+    ok_self = True
+    try:
+      if pg.MISSING_VALUE != s.default:
+        s.apply(s.default)
+    except (ValueError, TypeError):
+      ok_self = False
+    return dict(outcome='reproduced' if (bad or not ok_self) else 'not-reproduced',
+                detail=f'Int(min_value=0, max_value=3, default=1).set_default(9) raised={raised}; default afterwards {s.default!r}; '
+                       f'spec accepts its own default: {ok_self}')
+
+
 def _common_policy(policy):
   from pyglove.core.typing import inspect as pg_inspect
   from pyvc import axioms
